@@ -90,6 +90,12 @@ def gen_late(rng, size):
     as upstream (C03: a connection added mid-run wakes the waiting upstream at that instant; C20/C13: a device created late is initialised
     at its creation time)."""
     big = size != 'small'
+    if rng.random() < 0.2:
+        # a source with nothing behind it at all: its first part is ready long before the sink it will feed is constructed
+        ents = [dict(kind='source', cycle=rng.choice([0, 4, 8]), budget=rng.choice([3, 6, None]), gen_value=8, gen_quality=8, gen_batch=0),
+                dict(kind='sink', late=1, cycle=rng.choice([0, 0, 4]), collect=True, up=[1])]
+        ext = [['init']] + [['step']] * rng.randint(1, 6) + [['late', 1001, 1]] + [['step']] * rng.randint(10, 40) + [['run', rng.choice([40, 80])]]
+        return dict(seed=rng.randint(0, 1000), mod=rng.choice([1, 3, 1 << 20]), entities=ents, pools=[], uops=[], ext=ext, focus='late')
     ents = [dict(kind='source', cycle=rng.choice([4, 4, 8]), budget=rng.choice([None, 6, 10]), gen_value=8, gen_quality=8, gen_batch=0)]   # 1
     nid, mids = 1, []
     width = rng.choice([1, 1, 2])
@@ -422,7 +428,10 @@ def gen(rng, size='small', focus=None):
     sinks = []
     for _ in range(nsink):
         ups = list(prev) if rng.random() < 0.8 else [rng.choice(prev)]
-        i = add(dict(kind='sink', cycle=rng.choice([0, 0, 0, 4, 8]), collect=rng.random() < 0.5, up=ups))
+        se = dict(kind='sink', cycle=rng.choice([0, 0, 0, 4, 8]), collect=rng.random() < 0.5, up=ups)
+        if not use_batches and rng.random() < 0.15:
+            se['on_receive'] = [['part_add_value', 8 * rng.choice([2, -1, 5])]]      # a sink books the value the part has at receipt
+        i = add(se)
         sinks.append(i)
         blockable.append(i)
     # make sure every last-stage device has a way out
